@@ -318,7 +318,7 @@ func (t *TraceWriter) Ev(kind string, kv ...interface{}) {
 		t.w.WriteByte(':')
 		switch v := kv[i+1].(type) {
 		case int:
-			t.w.WriteString(strconv.Itoa(v))
+			t.w.WriteString(strconv.Itoa(tlcInt(v)))
 		case bool:
 			if v {
 				t.w.WriteString("true")
